@@ -217,3 +217,60 @@ package store
 //@   ghost update @s.snapshotStore.SetDueNext: fullSet = true
 //@   ensures [signal-always] signalled && nProcess == 1
 //@   ensures [load-full] isLoad ==> fullSet
+//
+// ---- C15(a) / C20 / C17 / C36: the write and unified entry points --------------------------------
+// Execute: the pragma guard runs before anything else can happen; the request reaches the log only
+// on a node that observed itself leader and ready (never executed locally on a follower), after
+// the write throttle was consulted.
+//@ func (*Store) Execute
+//@   requires [built] s != nil && s.reqMarshaller != nil && s.throttler != nil
+//@   assigns *, chanClosed, timerRunning, timerDur
+//@   ghost var pragmaOK bool = false
+//@   ghost var leaderObs bool = false
+//@   ghost var readyObs bool = false
+//@   ghost var delayed bool = false
+//@   ghost update @s.throttler.Delay: delayed = true
+//@   ghost update @p.Check: pragmaOK = (result == nil)
+//@   ghost update @s.raft.State: leaderObs = (result == raft.Leader)
+//@   ghost update @s.Ready: readyObs = result
+//@   assert @s.execute: [pragma-first] pragmaOK && arg0 == ex
+//@   assert @s.execute: [leader-only] leaderObs && readyObs
+//@   assert @s.execute: [throttled] delayed
+//
+// Request (unified endpoint): statements all read-only and level not STRONG => served from the
+// read-only pool under the level's rule; otherwise through the log, on a leader only.
+//@ func (*Store) Request
+//@   requires [built] s != nil && s.fsmTarget != nil && s.reqMarshaller != nil && s.throttler != nil
+//@   assigns *, chanClosed, timerRunning, timerDur
+//@   ghost var pragmaOK bool = false
+//@   ghost var readyObs bool = false
+//@   ghost var delayed bool = false
+//@   ghost var linOK bool = false
+//@   ghost var staleObs bool = false
+//@   ghost var staleVal bool = false
+//@   ghost var applyCalled bool = false
+//@   ghost var applyOK bool = false
+//@   ghost var rt int = 0
+//@   ghost var cb slice = nilslice
+//@   ghost var cc bool = false
+//@   ghost update @p.Check: pragmaOK = (result == nil)
+//@   assert @s.raft.CurrentTerm: [term-before-apply] !applyCalled
+//@   ghost update @s.raft.CurrentTerm: rt = result
+//@   ghost update @s.waitForLinearizableRead: linOK = (result == nil)
+//@   ghost update @s.isStaleRead: staleObs = true
+//@   ghost update @s.isStaleRead: staleVal = result
+//@   ghost update @s.Ready: readyObs = result
+//@   ghost update @s.throttler.Delay: delayed = (result == nil)
+//@   ghost update @s.tryCompress: cb = result0
+//@   ghost update @s.tryCompress: cc = result1
+//@   assert @s.db.QueryWithContext: [pragma-first] pragmaOK
+//@   assert @s.db.QueryWithContext: [read-only-path] nRW == 0 && eqr.Level != proto.ConsistencyLevel_STRONG
+//@   assert @s.db.QueryWithContext: [weak-leader] eqr.Level == proto.ConsistencyLevel_WEAK ==> isLeader
+//@   assert @s.db.QueryWithContext: [none-fresh] eqr.Level == proto.ConsistencyLevel_NONE ==> (staleObs && !staleVal)
+//@   assert @s.db.QueryWithContext: [linearizable-ok] eqr.Level == proto.ConsistencyLevel_LINEARIZABLE ==> linOK
+//@   assert @command.Marshal: [command-shape] arg0 != nil && arg0.Type == proto.Command_COMMAND_TYPE_EXECUTE_QUERY && arg0.SubCommand == cb && arg0.Compressed == cc
+//@   assert @s.raft.Apply: [leader-only] pragmaOK && isLeader && readyObs && delayed
+//@   ghost update @s.raft.Apply: applyCalled = true
+//@   ghost update @af.Error: applyOK = (result == nil)
+//@   assert @s.strongReadTerm.Store: [strong-term] applyCalled && applyOK && arg0 == rt
+//@   assert @af.Response: [results-after-apply] applyCalled && applyOK
